@@ -176,6 +176,9 @@ class BaseComponent(Manager):
         return getattr(self, '_unregister_pending', False)
 
     def _do_prepare_unregister_complete(self, e, value):
+        if not self.unregister_pending:
+            return self  # stale completion event: the unregistration has completed already
+
         # Remove component from tree now
         delattr(self, '_unregister_pending')
         self.fire(unregistered(self, self.parent))
@@ -187,6 +190,17 @@ class BaseComponent(Manager):
         self._updateRoot(self)
         # handlers cached while this component was a root before are stale now
         self._cache_needs_refresh = True
+
+        # Members of the detached subtree that are being unregistered themselves: their completion
+        # events are with the root we just left and cannot reach them; start again in this tree.
+        todo = list(self.components)
+        while todo:
+            c = todo.pop()
+            todo.extend(c.components)
+            if c.unregister_pending:
+                evt = prepare_unregister(c)
+                evt.complete_channels = (c,)
+                c.fire(evt)
         return self
 
     def _updateRoot(self, root):
